@@ -261,9 +261,9 @@ def reads_of(rng, data, how):
 
 def rand_req(rng, allow_close=True):
     method = rng.choice([b"GET", b"GET", b"POST", b"HEAD", b"PUT"])
-    status = rng.choice([200, 200, 200, 404, 204, 304, 500, 299])
+    status = rng.choice([200, 200, 200, 404, 204, 304, 500, 299, 103, 102])
     blen = rng.choice([0, 1, 5, 40])
-    ov = rng.choice([0, 1, 1, 2, 3]) if status not in (204, 304) else rng.choice([0, 1])
+    ov = rng.choice([0, 1, 1, 2, 3]) if status not in (204, 304, 103, 102) else rng.choice([0, 1, 2])
     if method == b"HEAD" and ov == 3:
         ov = 1
     ver = rng.choice([b"1.1", b"1.1", b"1.1", b"1.0"]) if allow_close else b"1.1"
@@ -323,7 +323,7 @@ def perturb(rng, ev, flav):
     pos = rng.randrange(1, len(ev) + 1)
     ids = [1, 1, 1, 2]
     what = rng.choice(["E%d:eof", "E%d:reset", "E%d:timedout", "E%d:pipe", "w%d:pipe", "w%d:reset", "w%d:eof", "D%d", "X", "C", "K", "B", "T",
-                       "W%d", "A", "Af", "At", "P%d", "E%d:cancel", "w%d:cancel"] + (["H%d:sslerr", "H%d:ok", "S%d:ok", "S%d:sslerr", "E%d:sslshut", "E%d:sslerr", "H%d:cancel"] if flav == "tls" else []))
+                       "W%d", "A", "Af", "At", "P%d", "E%d:cancel", "w%d:cancel"] + (["H%d:sslerr", "H%d:ok", "S%d:ok", "S%d:sslerr", "E%d:sslshut", "E%d:sslerr", "H%d:cancel", "H%d:eof", "H%d:reset"] if flav == "tls" else []))
     if "%d" in what:
         what = what % rng.choice(ids)
     ev.insert(pos, what)
@@ -417,6 +417,36 @@ def special_histories(rng, flav):
             rq = Req(b"GET", 200, 4, ov, hdrs=bad)
             nxt = Req()
             H.append(("split headers refused", "app=sync", ["A"] + hs + ["R1:" + hexs(rq.bytes()), "W1", "R1:" + hexs(nxt.bytes()), "W1", "E1:eof"] + tl, None))
+    # a HEAD request followed by every other kind of request on the same connection (the HEAD flag must not leak)
+    for ov in (1, 2):
+        for second in (Req(b"POST", 200, 6, ov, body=b"abcdefg", chunked=True), Req(b"POST", 200, 6, ov, body=b"xyz"), Req(b"GET", 200, 6, ov), Req(b"PUT", 201, 6, ov, body=b"q", chunked=True)):
+            a = Req(b"HEAD", 200, 4, ov)
+            third = Req(b"GET", 200, 3, ov)
+            ev = ["A"] + hs
+            for rq in (a, second, third):
+                ev += ["R1:" + hexs(rq.bytes()), "W1"]
+            H.append(("head then other", "app=sync", ev + ["E1:eof"] + tl, [a, second, third]))
+    # consecutive Expect requests on one connection, with and without a chunk handler; an Expect request that turns invalid
+    for chunkh in (0, 1):
+        for chunked in (False, True):
+            r1 = Req(b"POST", 200, 3, 1, b"1.1", None, b"hello", chunked, True)
+            r2 = Req(b"POST", 200, 3, 1, b"1.1", None, b"hello", chunked, True)
+            ev = ["A"] + hs
+            for rq in (r1, r2, r1):
+                ev += ["R1:" + hexs(rq.head()), "W1", "R1:" + hexs(rq.payload()), "W1"]
+            H.append(("expect twice chunkh=%d chunked=%d" % (chunkh, chunked), "app=sync,chunk=%d" % chunkh, ev + ["E1:eof"] + tl, None))
+    bad = Req(b"POST", 200, 3, 1, b"1.1", None, b"hello", True, True)
+    good = Req(b"POST", 200, 3, 1, b"1.1", None, b"hello", False, True)
+    H.append(("expect then invalid then expect", "app=sync", ["A"] + hs + ["R1:" + hexs(bad.head()), "W1", "R1:" + hexs(b"zz\r\n"), "W1",
+                                                                     "R1:" + hexs(good.head()), "W1", "R1:" + hexs(good.payload()), "W1", "E1:eof"] + tl, None))
+    # accepts that complete after the server has been closed / shut down / destroyed
+    for act in ("C", "K", "X"):
+        H.append(("accept after close", "app=sync", ["A"] + hs + [act, "A", "A"] + (["H2:ok"] if flav == "tls" else []) + ["B", "A", "B"], None))
+        H.append(("accept after close", "app=sync", [act, "A", "B"], None))
+    # a handshake that fails because the peer went away (disconnect class errors) or for any other reason
+    if flav == "tls":
+        for ec in ("eof", "reset", "aborted", "refused", "badf", "timedout", "sslerr", "sslshut", "pipe"):
+            H.append(("handshake fails", "app=sync", ["A", "H1:" + ec, "A", "H2:ok", "R2:" + hexs(Req().bytes()), "W2", "A", "H3:" + ec, "B", "E2:eof", "B"], None))
     # idle connections and time
     H.append(("idle ticks", "app=sync", ["A"] + hs + ["T", "T", "T", "R1:" + hexs(Req().bytes()), "W1", "T", "T", "E1:eof"] + tl, [Req()]))
     return H
